@@ -12,6 +12,22 @@ Monitors (oracles at the API boundary, reference = vmon/refs/{ec,rfc6979,ecdsa}.
   Key.sign / Key.verify    the DER layer on top
 on secp256k1 / secp256r1 (OpenSSL worker, PYCOIN_NATIVE=none worker, in-process pure Generator) and exhaustively on
 toy curves; plus the valgrind memcheck leg over the ctypes/libcrypto path.
+
+State that outlives one call (round 4):
+  refused calls            a menu of ~50 calls the library refuses, most of them part-way through (None / str / float / bytes
+                           scalars, hash 0, off-curve or truncated keys, truncated signatures, nonce sources that raise or
+                           return garbage, Key objects asked to sign None / without a secret, nonce function with values that
+                           do not fit), made on the SAME generator / Key objects between the judged calls (errpath); never
+                           judged themselves - the judged calls that follow must be right; the other production generator of
+                           the process is exercised in between as well
+  long run                 one shard: > 2^16 + 100 (thorough 2^17 + 100) consecutive multiplications by ONE module-level generator
+                           object in ONE process, every result judged (derivations vs a running sum, the nonce function vs the
+                           reference, every 256th step a fully judged signing / verification / recovery / Key event)
+  twins                    one shard: five live generators of DIFFERENT toy curves through ONE base point (equal by value: a
+                           Generator is the tuple of its base-point coordinates; same field / same order / 2-cycle pairs), the
+                           same question put to each in turn, keys handed over as objects made by another of them
+  caller-owned containers  [x, y] / [r, s] lists and bytearrays as arguments: unchanged afterwards, same answer when asked again;
+                           the list recovery returns is edited by the caller and the question asked again
 """
 import hashlib
 import itertools
@@ -29,7 +45,13 @@ RULE = ("a case is one monitored call: a signing event (curve, configuration, d,
         "from {1, 2, n-1, n, n+1, 2^255, 2^256-1, random}; every valid signature spawns forgeries (other key, other hash, "
         "r/s in {0, n, n+r, 2^256-1}, swapped, s->n-s, Q->-Q, z->z+-n, r+1, degenerate r=-z/d); every 4th family adds hand-built "
         "valid signatures with z = r*d (verification sum is a doubling) and z = -r*d/2 (one recovery candidate is infinity), "
-        "every 6th one with nonce x in [n, p). Toy curves: every d, z over "
+        "every 6th one with nonce x in [n, p). Between the groups of judged calls of a family one call of a rotating menu of "
+        "refused calls on the same objects; every 4th key / signature argument as a caller-owned list (asked twice), every 4th as "
+        "a Point of the other live generator of the same curve; every 4th recovery asked again after the caller edited the "
+        "returned list; every 7th family one signing / verification / recovery on the other production generator. Long run: keys "
+        "d -> d + stride (1, 2^64, 2^128, 2^255, n - 1) from a random start, > 2^16 + 100 multiplications on one object. Twins: "
+        "per round one key index and one hash put to each of five equal-by-value generators in shuffled order, then one (z, r, s) "
+        "triple to each. Toy curves: every d, z over "
         "every residue and every top-bit pattern, every (r, s) in [0, n+1]^2. Distinct by (kind, curve, configuration, "
         "operands); all counted cases are non-trivial (none is a fixed vector of the repository's suite except d=z=1).")
 ASSUMPTIONS = [
@@ -57,6 +79,22 @@ ASSUMPTIONS = [
     "every clause / listed kind has a required counter (REQUIRED_*): one that stays at 0 makes the run INCONCLUSIVE, as does "
     "an OpenSSL-planned shard that found the pure arithmetic active (config_active:<curve>/openssl)",
     "libsecp256k1 is not installed in this environment: that configuration is recorded absent",
+    "calls the library refuses (or unexpectedly accepts) on malformed arguments are never judged; only the judged calls made "
+    "after them on the same objects / in the same process are (any state a refused call leaves behind shows there)",
+    "caller-owned containers: a list / bytearray argument that the call modified is reported (verify.modifies_caller_argument, "
+    "recover.modifies_caller_argument, key.modifies_caller_argument) - the statement treats keys, hashes and signatures as "
+    "values, so the caller's value must still be the one that was judged; the second call with the same objects and the "
+    "recovery repeated after the caller edited the returned list are judged by the statement's own rules, nothing more. If the "
+    "library refuses lists / bytearrays but answers the tuple / bytes form correctly, that is tallied, not reported",
+    "long run: the number of generator multiplications is counted as a lower bound (1 per derivation, verification, recovery; "
+    "2 per signing event; 4 per Key event); the running sum (Jacobian, reference arithmetic) is confirmed by an independent "
+    "reference multiplication before a violation is reported (disagreement of the two -> inconclusive). It needs the "
+    "OpenSSL-backed generator (0.5 ms per multiplication; 25 ms on the pure arithmetic): if that is not active the run is "
+    "INCONCLUSIVE. A violated derivation d*G is reported as such because the statement's 'public key d*G' is what the "
+    "library computes as d * generator",
+    "twins: live generators of different curves with identical base-point coordinates are legitimate (curve families fix G by "
+    "convention); the families are enumerated by brute-force point counting (prime order >= 5, p = 3 mod 4) and each member is "
+    "re-validated in the shard (failure -> inconclusive)",
 ]
 EXPLANATION = ("every signing, verification, recovery and Key-layer call on the real library is compared with the reference; "
                "toy curves are swept exhaustively in-process with the pure Generator; 256-bit curves run in three "
@@ -72,11 +110,21 @@ def exhaustive(tier):
 def configurations(tier):
     return ["secp256k1+secp256r1 / OpenSSL (default worker)", "secp256k1+secp256r1 / pure Python worker (PYCOIN_NATIVE=none)",
             "secp256k1+secp256r1 / in-process pure Generator(p,a,b,G,n)", "toy curves / in-process pure Generator",
-            "valgrind memcheck over the OpenSSL path", "libsecp256k1: absent (not installed)"]
+            "valgrind memcheck over the OpenSSL path", "libsecp256k1: absent (not installed)",
+            "secp256k1 / OpenSSL, one generator object, > 2^16 + 100 multiplications in one process (long run)"
+            + ("; same for secp256r1, 2^17 + 100" if tier == "thorough" else ""),
+            "five toy generators of different curves through one base point, interleaved in one process (twins)"]
 
 
 # ---------------------------------------------------------------------------------------------
 # plan
+
+SHARD_ORDER = {"longrun": 0, "memcheck": 0, "big": 1, "twins": 2, "toy": 2}
+M256 = (1 << 256) - 1
+LONGRUN_MIN = {"quick": (1 << 16) + 100, "thorough": (1 << 17) + 100}
+# base points through which families of different toy curves are laid (twin_family)
+TWIN_BASES = ((1, 2), (2, 3), (0, 1), (3, 5), (1, 3))
+
 
 def _toy_params(c):
     return [c.p, c.a, c.b, c.G[0], c.G[1], c.n]
@@ -120,7 +168,13 @@ def plan(tier, seed):
         big("secp256k1", "inproc", 8, "lite", count=2)
         big("secp256r1", "inproc", 8, "lite", count=1)
         shards.append({"kind": "memcheck", "iterations": 12, "vg_timeout": 400, "label": "memcheck"})
-        shards.sort(key=lambda s: {"memcheck": 0, "big": 1, "toy": 2}[s["kind"]])
+        # the N-th operation on ONE generator object in ONE process (see run_longrun)
+        shards.append({"kind": "longrun", "curve": "secp256k1", "count": LONGRUN_MIN["quick"] + 64, "every": 256,
+                       "label": "longrun secp256k1/openssl"})
+        # several live generators of DIFFERENT curves with the same base-point coordinates, interleaved in one process
+        shards.append({"kind": "twins", "G": list(TWIN_BASES[seed % len(TWIN_BASES)]), "curves": 5, "rounds": 90,
+                       "label": "twins G=%r" % (TWIN_BASES[seed % len(TWIN_BASES)],)})
+        shards.sort(key=lambda s: SHARD_ORDER[s["kind"]])
     else:
         toys = ec.toy_curves(80)
         small = [c for c in toys if c.n <= 13]
@@ -139,8 +193,13 @@ def plan(tier, seed):
         big("secp256k1", "inproc", 80, "lite", count=6)
         big("secp256r1", "inproc", 80, "lite", count=5)
         shards.append({"kind": "memcheck", "iterations": 300, "vg_timeout": 3000, "label": "memcheck"})
+        for cv in ("secp256k1", "secp256r1"):
+            shards.append({"kind": "longrun", "curve": cv, "count": LONGRUN_MIN["thorough"] + 64, "every": 96,
+                           "label": "longrun %s/openssl" % cv})
+        for G in TWIN_BASES:
+            shards.append({"kind": "twins", "G": list(G), "curves": 8, "rounds": 600, "label": "twins G=%r" % (G,)})
         # long shards first so the tail is short
-        shards.sort(key=lambda s: {"memcheck": 0, "big": 1, "toy": 2}[s["kind"]])
+        shards.sort(key=lambda s: SHARD_ORDER[s["kind"]])
     return shards
 
 
@@ -282,6 +341,17 @@ def _get_ctx(curve, gen, rec):
 
 def base_case(ctx, kind, **kw):
     d = {"kind": kind, "curve": ctx.curve_id, "gen": ctx.gen}
+    lr = _STATE.get("refused")
+    if lr:
+        # the last call the library refused in this process (replay repeats it first: state left behind by it matters)
+        d["after_refused"] = list(lr)
+        if _STATE.get("refusal_pending"):
+            _STATE["refusal_pending"] = False
+            ctx.rec.ev("errpath.judged_call_follows_refusal")
+    pre = _STATE.get("after_curves")
+    if pre:
+        # other live generators (different curves, same base-point coordinates) that were asked the same thing just before
+        d["after_curves"] = [list(x) for x in pre if list(x) != list(ctx.curve_id)]
     d.update(kw)
     return d
 
@@ -420,6 +490,32 @@ def _reason(n, r, s):
     return "equation_false"
 
 
+def _foreign_generator(ctx, Q=None):
+    """another live Generator object that compares EQUAL to ctx.g (a Generator is the tuple of its base point) but is a
+    different flavour: for the 256-bit curves the other implementation of the same curve (module-level, possibly OpenSSL
+    backed <-> plain Generator(p, a, b, G, n)); for a toy curve of a twin family a generator of a DIFFERENT curve that
+    also contains the point Q."""
+    if ctx.toy:
+        for cid in _STATE.get("twins", ()):
+            o = _STATE["ctx"].get((repr(cid), "inproc"))
+            if o is not None and o is not ctx and (Q is None or o.c.on_curve(tuple(Q))):
+                return o.g
+        return None
+    fg = getattr(ctx, "foreign_g", None)
+    if fg is None:
+        if ctx.gen == "inproc":
+            if ctx.curve_id == "secp256k1":
+                from pycoin.ecdsa.secp256k1 import secp256k1_generator as fg
+            else:
+                from pycoin.ecdsa.secp256r1 import secp256r1_generator as fg
+        else:
+            from pycoin.ecdsa.Generator import Generator
+            c = ctx.c
+            fg = Generator(c.p, c.a % c.p, c.b, c.G, c.n)
+        ctx.foreign_g = fg
+    return fg
+
+
 def judge_verify(ctx, case):
     rec, g, c = ctx.rec, ctx.g, ctx.c
     n = c.n
@@ -428,19 +524,53 @@ def judge_verify(ctx, case):
     rec.ev("Generator.verify")
     if case.get("label"):
         rec.ev("verify." + case["label"])
-    arg = g.Point(*Q) if case.get("as_point") else Q
-    st, got = observe(g.verify, arg, z, (r, s))
+    arg = Q
+    if case.get("as_point") == "foreign":
+        # the key as an object produced by ANOTHER generator that is equal by value: its Point, or (for Q = G) itself
+        fg = _foreign_generator(ctx, Q)
+        if fg is not None:
+            st0, arg = observe(lambda: fg if Q == tuple(fg) else fg.Point(*Q))
+            if st0 != "ok":
+                arg = Q
+            else:
+                rec.ev("verify.key_is_foreign_generators_point")
+    elif case.get("as_point"):
+        arg = g.Point(*Q)
+    sig = (r, s)
+    mutable = bool(case.get("mutable"))
+    if mutable:
+        # caller-owned mutable arguments: lists instead of tuples
+        arg, sig = list(Q), [r, s]
+        rec.ev("verify.mutable_arguments")
+    st, got = observe(g.verify, arg, z, sig)
     rec.case(("verify", ctx.curve_id, ctx.cfg, Q, z, r, s))
-    if st != "ok":
-        mech = "verify.raises"
-        if 1 <= r < n and 1 <= s < n and RE.verification_point(c, Q, z % n, r, s) is None:
-            mech = "verify.raises.point_at_infinity"
-        rec.violation(mech, case, got, exp)
-    elif bool(got) != exp:
-        if got and not exp:
-            rec.violation("verify.accepts_invalid." + _reason(n, r, s), case, got, exp)
+    if mutable and st != "ok":
+        st_, got_ = observe(g.verify, Q, z, (r, s))
+        if st_ == "ok":
+            rec.ev("verify.mutable_arguments_refused(tallied)")        # lists not accepted (any more): not the statement's business
+            mutable, st, got = False, st_, got_
+
+    def verdict(st, got, which):
+        if st != "ok":
+            mech = "verify.raises"
+            if 1 <= r < n and 1 <= s < n and RE.verification_point(c, Q, z % n, r, s) is None:
+                mech = "verify.raises.point_at_infinity"
+            rec.violation(mech, case if which == 1 else dict(case, call=which), got, exp)
+        elif bool(got) != exp:
+            if got and not exp:
+                rec.violation("verify.accepts_invalid." + _reason(n, r, s), case if which == 1 else dict(case, call=which), got, exp)
+            else:
+                rec.violation("verify.rejects_valid", case if which == 1 else dict(case, call=which), got, exp)
+    verdict(st, got, 1)
+    if mutable:
+        if arg != list(Q) or sig != [r, s]:
+            rec.violation("verify.modifies_caller_argument", case, [arg, sig], [list(Q), [r, s]])
         else:
-            rec.violation("verify.rejects_valid", case, got, exp)
+            # the same objects again: same question, same answer
+            st, got = observe(g.verify, arg, z, sig)
+            verdict(st, got, 2)
+            if arg != list(Q) or sig != [r, s]:
+                rec.violation("verify.modifies_caller_argument", case, [arg, sig], [list(Q), [r, s]])
     if exp and ctx.toy and RE.verification_point(c, Q, z % n, r, s)[0] >= n:
         rec.ev("verify.valid_nonce_point_x_ge_n(toy)")           # the region where "reduced mod n" matters
     return exp
@@ -467,8 +597,53 @@ def judge_recover(ctx, case):
     if must_not:
         rec.ev("recover.signer_excluded_by_parity_demanded")
     rec.case(("recover", ctx.curve_id, ctx.cfg, z, r, s, yp))
-    st, got = observe(g.possible_public_pairs_for_signature, z, (r, s), yp) if yp is not None else \
-        observe(g.possible_public_pairs_for_signature, z, (r, s))
+    recall = bool(case.get("recall"))
+    sig = [r, s] if recall else (r, s)
+    call = lambda: observe(g.possible_public_pairs_for_signature, z, sig, yp) if yp is not None else \
+        observe(g.possible_public_pairs_for_signature, z, sig)
+    st, got = call()
+    if recall and st != "ok":
+        sig, recall = (r, s), False
+        st_, got_ = call()
+        if st_ == "ok":
+            rec.ev("recover.mutable_arguments_refused(tallied)")
+            st, got = st_, got_
+    _judge_recovered(ctx, case, st, got, must, must_not, signer, R)
+    if recall and st == "ok":
+        # caller-owned containers: the [r, s] list must be as it was; the returned list belongs to the caller, who may
+        # edit it - the same question asked again (same argument objects) is judged by the same rules
+        rec.ev("recover.asked_again_after_caller_edited_result")
+        if sig != [r, s]:
+            rec.violation("recover.modifies_caller_argument", case, sig, [r, s])
+            return
+        returned = got
+        if isinstance(got, list):
+            del got[:]
+            got.append((0, 0))
+        st, got = call()
+        _judge_recovered(ctx, dict(case, call=2), st, got, must, must_not, signer, R)
+        if st == "ok" and got is returned:
+            rec.ev("recover.same_list_object_returned_twice(tallied)")
+    if case.get("chain") and st == "ok":
+        # producer x consumer: the Point objects recovery hands out, given to verify() and to Key as they are
+        for P in list(got)[:2]:
+            if P[0] is None:
+                continue
+            rec.ev("recover.returned_point_object_fed_to_verify")
+            exp = RE.verify(c, tuple(P), e, r, s) if c.on_curve(tuple(P)) else False
+            stv, v = observe(g.verify, P, z, (r, s))
+            if stv == "ok" and bool(v) != exp:
+                rec.violation("verify.rejects_valid" if exp else "verify.accepts_invalid." + _reason(n, r, s),
+                              dict(case, Q_object="as returned by recovery", Q=list(P)), v, exp)
+            elif stv != "ok" and exp:
+                rec.violation("verify.raises", dict(case, Q_object="as returned by recovery", Q=list(P)), v, exp)
+
+
+def _judge_recovered(ctx, case, st, got, must, must_not, signer, R):
+    rec, c = ctx.rec, ctx.c
+    n = c.n
+    z, r, s, yp = case["z"], case["r"], case["s"], case.get("y_parity")
+    e = z % n
     if st != "ok":
         if must:
             rec.violation("recover.raises_on_valid_signature", case, got, "list containing the signer's key")
@@ -516,19 +691,41 @@ def judge_key(ctx, case):
     d, z = case["d"], case["z"]
     K = ctx.KeyClass
     rec.case(("key", ctx.curve_id, ctx.cfg, d, z))
-    st, key = observe(K, secret_exponent=d)
-    if st != "ok":
-        rec.violation("key.constructor_raises", case, key, "Key")
-        return
+    same = bool(case.get("same_object"))
+    if same:
+        # the persistent Key objects of this generator (refused calls are made on them, see errpath)
+        E = _err_env(ctx)
+        if not E or (d, z) != (E.d0, E.z0):
+            return
+        key = E.key
+        rec.ev("Key.same_object_after_refused_call")
+    else:
+        st, key = observe(K, secret_exponent=d)
+        if st != "ok":
+            rec.violation("key.constructor_raises", case, key, "Key")
+            return
     Q = c.mul(d, c.G)
     if tuple(key.public_pair()) != Q:
         rec.violation("key.public_pair_mismatch", case, key.public_pair(), Q)
     h = _h32(z)
+    mutable = bool(case.get("mutable"))
+    if mutable:
+        h = bytearray(h)
+        rec.ev("Key.mutable_arguments")
     ctx.tap.take()
     rec.ev("Key.sign")
     st, sig = observe(key.sign, h)
     ctx.tap.take()
-    sg = ref_sign(ctx, d, z)
+    if mutable:
+        if st != "ok":
+            st_, sig_ = observe(key.sign, bytes(h))
+            if st_ == "ok":
+                rec.ev("Key.mutable_arguments_refused(tallied)")
+                mutable, st, sig, h = False, st_, sig_, bytes(h)
+        elif h != bytearray(_h32(z)):
+            rec.violation("key.modifies_caller_argument", case, h, _h32(z))
+            return
+    sg = _err_env(ctx).sg0 if same else ref_sign(ctx, d, z)
     if st != "ok":
         if ctx.toy and not RE.signable(c, d, z % n):
             return
@@ -546,12 +743,20 @@ def judge_key(ctx, case):
         rec.violation("key.sign_invalid_signature", case, [r, s], "valid signature")
     elif sg["first_ok"] and (r, s) != (sg["r"], sg["s"]) and not (ctx.native_sign and (r, n - s) == (sg["r"], sg["s"])):
         rec.violation("key.sign_differs_from_rfc6979", case, [r, s], [sg["r"], sg["s"]])
-    pubkey = K(public_pair=Q)
+    pubkey = _err_env(ctx).pub if same else K(public_pair=Q)
     for who, k in (("private", key), ("public", pubkey)):
         rec.ev("Key.verify")
-        st, v = observe(k.verify, h, sig)
+        sigarg = bytearray(sig) if mutable else sig
+        st, v = observe(k.verify, h, sigarg)
+        if mutable and (st != "ok" or not v):
+            st_, v_ = observe(k.verify, bytes(h), bytes(sig))
+            if st_ == "ok" and v_:
+                rec.ev("Key.mutable_arguments_refused(tallied)")
+                continue
         if st != "ok" or not v:
             rec.violation("key.verify_rejects_own_signature", dict(case, who=who), v, True)
+        elif mutable and (h != bytearray(_h32(z)) or sigarg != bytearray(sig)):
+            rec.violation("key.modifies_caller_argument", dict(case, who=who), [h, sigarg], [_h32(z), sig])
 
 
 def judge_key_verify(ctx, case):
@@ -579,6 +784,147 @@ def judge_key_verify(ctx, case):
 
 
 JUDGES = {"sign": judge_sign, "verify": judge_verify, "recover": judge_recover, "key": judge_key, "key_verify": judge_key_verify}
+
+
+# ---------------------------------------------------------------------------------------------
+# class A: calls the library refuses (most of them part-way through), interleaved with the judged calls on the same
+# generator / Key objects. A refusal (or an acceptance) is never judged; the judged calls that FOLLOW must be right.
+
+class _Env:
+    pass
+
+
+def _off_curve(c, Q):
+    x, y = Q
+    for dy in (1, 2):
+        P = (x, (y + dy) % c.p)
+        if not c.on_curve(P):
+            return P
+    return (x, y)
+
+
+def _raising_gen_k(*a, **kw):
+    raise RuntimeError("nonce source unavailable")
+
+
+ERR_MENU = [
+    ("mul_none", lambda E: E.g * None),
+    ("sign_hash_zero", lambda E: E.g.sign(E.d, 0)),
+    ("verify_offcurve_key", lambda E: E.g.verify(E.off, E.z, (E.r, E.s))),
+    ("recover_hash_none", lambda E: E.g.possible_public_pairs_for_signature(None, (E.r, E.s))),
+    ("key_secret_zero", lambda E: E.K(secret_exponent=0)),
+    ("nonce_key_none", lambda E: E.fn(E.n, None, E.z)),
+    ("rmul_str", lambda E: "7" * E.g),
+    ("sign_key_none", lambda E: E.g.sign(None, E.z)),
+    ("verify_sig_short", lambda E: E.g.verify(E.Q, E.z, (E.r,))),
+    ("recover_sig_short", lambda E: E.g.possible_public_pairs_for_signature(E.z, (E.r,))),
+    ("key_sign_none", lambda E: E.key.sign(None)),
+    ("nonce_hash_str", lambda E: E.fn(E.n, E.d, "7")),
+    ("mul_float", lambda E: E.g * 1.5),
+    ("sign_key_str", lambda E: E.g.sign_with_recid("1", E.z)),
+    ("verify_hash_none", lambda E: E.g.verify(E.Q, None, (E.r, E.s))),
+    ("recover_s_str", lambda E: E.g.possible_public_pairs_for_signature(E.z, (E.r, "1"))),
+    ("key_sign_str", lambda E: E.key.sign("00" * 32)),
+    ("nonce_hash_negative", lambda E: E.fn(E.n, E.d, -1)),
+    ("rmul_none", lambda E: None * E.g),
+    ("sign_key_float", lambda E: E.g.sign(1.5, E.z)),
+    ("verify_s_str", lambda E: E.g.verify(E.Q, E.z, (E.r, "1"))),
+    ("recover_parity_str", lambda E: E.g.possible_public_pairs_for_signature(E.z, (E.r, E.s), "x")),
+    ("key_sign_public_only", lambda E: E.pub.sign(E.h)),
+    ("nonce_hash_too_wide", lambda E: E.fn(E.n, E.d, 1 << 300)),
+    ("point_offcurve", lambda E: E.g.Point(*E.off)),
+    ("sign_hash_none", lambda E: E.g.sign_with_recid(E.d, None)),
+    ("verify_s_float", lambda E: E.g.verify(E.Q, E.z, (E.r, 1.5))),
+    ("recover_r_none", lambda E: E.g.possible_public_pairs_for_signature(E.z, (None, E.s))),
+    ("key_verify_sig_none", lambda E: E.key.verify(E.h, None)),
+    ("nonce_order_zero", lambda E: E.fn(0, E.d, E.z)),
+    ("sign_hash_str", lambda E: E.g.sign(E.d, "abc")),
+    ("verify_key_none", lambda E: E.g.verify(None, E.z, (E.r, E.s))),
+    ("key_verify_hash_str", lambda E: E.pub.verify("x", E.der)),
+    ("sign_hash_float", lambda E: E.g.sign(E.d, 2.5)),
+    ("verify_sig_none", lambda E: E.g.verify(E.Q, E.z, None)),
+    ("key_secret_is_order", lambda E: E.K(secret_exponent=E.n)),
+    ("sign_hash_bytes", lambda E: E.g.sign(E.d, E.h)),
+    ("verify_key_short", lambda E: E.g.verify((E.Q[0],), E.z, (E.r, E.s))),
+    ("key_secret_str", lambda E: E.K(secret_exponent="1")),
+    ("sign_nonce_source_raises", lambda E: E.g.sign(E.d, E.z, _raising_gen_k)),
+    ("verify_hash_float", lambda E: E.g.verify(E.Q, 2.5, (E.r, E.s))),
+    ("key_both_given", lambda E: E.K(secret_exponent=E.d, public_pair=E.Q)),
+    ("sign_nonce_source_none", lambda E: E.g.sign_with_recid(E.d, E.z, lambda *a: None)),
+    ("verify_r_none", lambda E: E.g.verify(E.Q, E.z, (None, E.s))),
+    ("key_offcurve", lambda E: E.K(public_pair=E.off)),
+    ("sign_nonce_source_str", lambda E: E.g.sign(E.d, E.z, lambda *a: "5")),
+    ("verify_hash_str", lambda E: E.g.verify(E.Q, "ab", (E.r, E.s))),
+    ("key_verify_garbage_der", lambda E: E.key.verify(E.h, b"\x30\x06\x02\x01")),
+    ("sign_nonce_source_zero", lambda E: E.g.sign(E.d, E.z, lambda *a: 0)),
+    ("sign_nonce_source_float", lambda E: E.g.sign(E.d, E.z, lambda *a: 1.5)),
+    ("sign_missing_hash", lambda E: E.g.sign(E.d)),
+]
+ERR_BY_NAME = dict(ERR_MENU)
+ERR_GROUPS = ("mul", "sign", "verify", "recover", "key", "nonce")
+REQUIRED_ERRPATH = ("errpath.refused_call", "errpath.judged_call_follows_refusal") + tuple("errpath.kind:" + k for k in ERR_GROUPS)
+
+
+def _err_env(ctx):
+    """fixed valid material (key, hash, signature, persistent Key objects) the refused calls are built around."""
+    E = getattr(ctx, "err_env", None)
+    if E is not None:
+        return E
+    c, n = ctx.c, ctx.c.n
+    E = _Env()
+    E.g, E.K, E.fn, E.n = ctx.g, ctx.KeyClass, (ctx.tap.fn or (lambda *a: None)), n
+    E.z0 = None
+    for d0 in dict.fromkeys([0xC01 % (n - 1) + 1] + (list(range(1, n)) if ctx.toy else [])):
+        for z in [(1 << 255) + 0xC01] + list(range(0xC01, 0xC01 + (40 if ctx.toy else 1))):
+            sg = RE.rfc6979_sign(c, d0, z)
+            if sg["valid"] and sg["first_ok"]:
+                E.d0, E.z0, E.sg0 = d0, z, sg
+                break
+        if E.z0 is not None:
+            break
+    if E.z0 is None:
+        ctx.err_env = False
+        return False
+    E.Q0 = c.mul(E.d0, c.G)
+    E.r0, E.s0 = E.sg0["r"], E.sg0["s"]
+    E.h = _h32(E.z0)
+    E.der = RE.der_sig(E.r0, E.s0)
+    st, E.key = observe(E.K, secret_exponent=E.d0)
+    st2, E.pub = observe(E.K, public_pair=E.Q0)
+    if st != "ok" or st2 != "ok":
+        ctx.err_env = False          # judge_key reports constructor failures
+        return False
+    ctx.err_env = E
+    return E
+
+
+def errpath(ctx, d=None, z=None, r=None, s=None, name=None, follow=True):
+    """one refused call (the next of the menu, or the named one) on the generator / Key objects of ctx."""
+    E = _err_env(ctx)
+    if not E:
+        return
+    rec, c = ctx.rec, ctx.c
+    if name is None:
+        i = getattr(ctx, "err_i", 0)
+        ctx.err_i = i + 1
+        name = ERR_MENU[i % len(ERR_MENU)][0]
+    fn = ERR_BY_NAME.get(name)
+    if fn is None:
+        return
+    if d is None or z is None or not r or not s:
+        d, z, r, s = E.d0, E.z0, E.r0, E.s0
+    E.d, E.z, E.r, E.s = d, z, r, s
+    E.Q = c.mul(d, c.G)
+    E.off = _off_curve(c, E.Q)
+    st, out = observe(fn, E)
+    rec.ev("errpath.refused_call" if st == "exc" else "errpath.call_not_refused(tallied)")
+    group = name.split("_")[0]
+    rec.ev("errpath.kind:" + ("mul" if group in ("mul", "rmul", "point") else group))
+    _STATE["refused"] = (name, ctx.curve_id, ctx.gen)
+    _STATE["refusal_pending"] = True
+    if follow and name.startswith("key_"):
+        # the very same Key objects must still sign / verify correctly
+        judge_key(ctx, base_case(ctx, "key", d=E.d0, z=E.z0, same_object=True))
 
 
 # ---------------------------------------------------------------------------------------------
@@ -649,6 +995,7 @@ REQUIRED_BIG = ("deterministic_generate_k.direct", "nonce_table_r_entries",
                 "recover.signer_demanded", "recover.signer_excluded_by_parity_demanded", "recover.returned_key",
                 "recover.s_negated", "recover.valid_wrapped_nonce_x_ge_n", "recover.valid_doubling",
                 "recover.other_candidate_is_infinity")
+REQUIRED_MUTABLE = ("verify.mutable_arguments", "recover.asked_again_after_caller_edited_result", "Key.mutable_arguments")
 REQUIRED_TOY = ("sign.first_nonce_unusable(retry path)", "nonce.first_drbg_output_rejected(RFC 6979 step h.3 loop)",
                 "verify.valid_in_table", "recover.signer_demanded", "recover.s_negated")
 REQUIRED_TOY_WRAP = ("sign.nonce_point_x_ge_n(r = x - n)", "verify.valid_nonce_point_x_ge_n(toy)",
@@ -714,6 +1061,10 @@ def run_big(spec, rec):
     rng = shard_rng(spec["seed"], PROPERTY, spec["tier"], spec["shard"])
     rec.require(*REQUIRED_OPS)
     rec.require(*REQUIRED_BIG)
+    rec.require(*REQUIRED_ERRPATH)
+    rec.require(*REQUIRED_MUTABLE)
+    rec.require("verify.key_is_foreign_generators_point", "recover.returned_point_object_fed_to_verify",
+                "interleave.other_generator_same_process")
     if NS.libsecp256k1 is None:
         rec.ev("config_absent:libsecp256k1")
         rec.note("libsecp256k1 not loadable: configuration absent")
@@ -750,9 +1101,12 @@ def run_big(spec, rec):
         else:
             d, z = rnd_d(), rnd_z()
         prev_d, prev_z = d, z
-        res = judge_sign(ctx, base_case(ctx, "sign", d=d, z=z))
         sg = ref_sign(ctx, d, z)
         r, s = sg["r"], sg["s"]
+        fol = not want_pure or i % 3 == 0                # (pure arithmetic: ~25 ms per multiplication)
+        errpath(ctx, d, z, r, s, follow=fol)             # class A: a refused call before each group of judged calls
+        res = judge_sign(ctx, base_case(ctx, "sign", d=d, z=z))
+        sg = ref_sign(ctx, d, z)
         Q = c.mul(d, c.G)
         d2 = rnd_d()
         while d2 == d:
@@ -763,8 +1117,15 @@ def run_big(spec, rec):
         mode = spec["forgeries"]
         full = mode == "full" or (mode == "mixed" and i % 3 == 0)
         fs = forgeries(c, rng, d, z, r, s, c.mul(d2, c.G), z2, "full" if full else i)
+        errpath(ctx, d, z, r, s, follow=fol)
         for j, (label, Qf, zf, rf, sf) in enumerate(fs):
-            judge_verify(ctx, base_case(ctx, "verify", Q=list(Qf), z=zf, r=rf, s=sf, label=label, as_point=bool((i + j) % 4 == 0)))
+            # the key as a plain tuple / this generator's Point / a Point of the other live generator of this curve
+            # (openssl-backed <-> plain: equal by value, different flavour) / a caller-owned list (asked twice)
+            form = (i + j) % 4
+            foreign = form == 2 and (j < 2 or (not want_pure and j % 3 == 0))
+            judge_verify(ctx, base_case(ctx, "verify", Q=list(Qf), z=zf, r=rf, s=sf, label=label,
+                                        as_point="foreign" if foreign else bool(form == 0),
+                                        mutable=bool(form == 3 and (j < 3 or not want_pure))))
         # recovery: no parity, signer's parity, opposite parity; pure configurations rotate (each call costs 2-4 multiplies)
         recid = res[2] if res else (sg["R"][1] & 1)
         variants = recover_variants(c, r, s, recid, sg["R"])
@@ -772,15 +1133,18 @@ def run_big(spec, rec):
             variants = [variants[i % len(variants)]]
         else:
             variants = variants[:3] + [variants[3 + i % 2]]
-        for label, sv, yp, fr, Rv in variants:
+        errpath(ctx, d, z, r, s, follow=fol)
+        for vi, (label, sv, yp, fr, Rv) in enumerate(variants):
             judge_recover(ctx, base_case(ctx, "recover", z=z, r=r, s=sv, y_parity=yp, from_recid=fr, signer=list(Q), R=list(Rv),
-                                         label=label))
+                                         label=label, recall=bool((i + vi) % 4 == 0 and (not want_pure or i % 3 == 0)),
+                                         chain=bool((i + vi) % 4 == 2 and (not want_pure or i % 3 == 1))))
         if full:
             lab, Qf, zf, rf, sf = fs[12 + (i // 3) % 11]
             judge_recover(ctx, base_case(ctx, "recover", z=zf, r=rf, s=sf, y_parity=None))
         # Key / DER layer
         if mode != "lite" or i % 3 == 0:
-            judge_key(ctx, base_case(ctx, "key", d=d, z=z))
+            errpath(ctx, d, z, r, s, follow=fol)
+            judge_key(ctx, base_case(ctx, "key", d=d, z=z, mutable=bool(i % 2)))
             pick = fs if full and i % 4 == 0 else [fs[0], fs[(i // 3) % len(fs)], fs[7 if full else 4]]
             for (label, Qf, zf, rf, sf) in pick:
                 judge_key_verify(ctx, base_case(ctx, "key_verify", Q=list(Qf), z=zf, r=rf, s=sf, label=label))
@@ -811,6 +1175,23 @@ def run_big(spec, rec):
         # valid signatures in algebraic corner cases of the verification / recovery sums that no signer produces by chance
         if i % 4 == 1:
             special_cases(ctx, rng, d, Q, i, lite=(mode == "lite"))
+        # the OTHER production generator living in this process, between two families of this one (state shared at module /
+        # class level between generator objects, e.g. left behind by the refused calls above, shows on either)
+        if i % (7 if not want_pure else 4) == 3 and spec["gen"] == "module":
+            other = get_ctx("secp256r1" if spec["curve"] == "secp256k1" else "secp256k1", "module", rec)
+            rec.ev("interleave.other_generator_same_process")
+            do, zo = d % (other.c.n - 1) + 1, z
+            if i % 2:
+                errpath(other, follow=not want_pure)
+            reso = judge_sign(other, base_case(other, "sign", d=do, z=zo))
+            sgo = ref_sign(other, do, zo)
+            Qo = other.c.mul(do, other.c.G)
+            judge_verify(other, base_case(other, "verify", Q=list(Qo), z=zo, r=sgo["r"], s=sgo["s"], label="valid", as_point=False))
+            if not want_pure:
+                judge_verify(other, base_case(other, "verify", Q=list(Qo), z=zo ^ 1 or 2, r=sgo["r"], s=sgo["s"], label="other_hash",
+                                              as_point=False))
+                judge_recover(other, base_case(other, "recover", z=zo, r=sgo["r"], s=sgo["s"], y_parity=None, signer=list(Qo),
+                                               R=list(sgo["R"]), label="signer"))
         if i < 2:
             rec.sample({"config": spec.get("label"), "event": "sign", "d": d, "z": z, "r": r, "s": s, "k": sg["k"],
                         "forgeries_checked": [f[0] for f in fs]})
@@ -844,6 +1225,8 @@ def run_toy(spec, rec):
     rng = shard_rng(spec["seed"], PROPERTY, spec["tier"], spec["shard"])
     rec.require(*REQUIRED_OPS)
     rec.require(*REQUIRED_TOY)
+    rec.require(*REQUIRED_ERRPATH)
+    rec.require(*REQUIRED_MUTABLE)
     if spec.get("wrap"):
         rec.require(*REQUIRED_TOY_WRAP)
     rec.ev("config:toy/inproc-pure")
@@ -865,6 +1248,8 @@ def run_toy(spec, rec):
     for d in ds:
         zs = z_sign if per_d >= len(z_sign) else rng.sample(z_sign, per_d)
         for i, z in enumerate(zs):
+            if i % 3 == 0:
+                errpath(ctx)                     # class A: a refused call, then the judged ones
             res = judge_sign(ctx, base_case(ctx, "sign", d=d, z=z))
             if res:
                 r, s, recid, sg = res
@@ -877,9 +1262,9 @@ def run_toy(spec, rec):
                 variants = recover_variants(c, r, s, recid, R)
                 label, sv, yp, fr, Rv = variants[i % len(variants)]
                 judge_recover(ctx, base_case(ctx, "recover", z=z, r=r, s=sv, y_parity=yp, from_recid=fr, signer=list(pub[d]),
-                                             R=list(Rv) if Rv else None, label=label))
+                                             R=list(Rv) if Rv else None, label=label, recall=bool(i % 7 == 0), chain=bool(i % 7 == 3)))
             if i % 5 == 0:
-                judge_key(ctx, base_case(ctx, "key", d=d, z=z))
+                judge_key(ctx, base_case(ctx, "key", d=d, z=z, mutable=bool(i % 10 == 0)))
     # --- verification truth table
     z_ver = list(range(1, n + 1)) + [rng.choice(z_top), M, n + 1 + rng.randrange(n)]
     grid_size = (n + 2) ** 2 if full else 6 * n
@@ -889,8 +1274,9 @@ def run_toy(spec, rec):
         pairs = rng.sample(pairs, maxpairs)
     for j, (d, z) in enumerate(pairs):
         Q = pub[d]
-        for (r, s) in _rs_grid(c, rng, full, d, z % n):
-            exp = judge_verify(ctx, base_case(ctx, "verify", Q=list(Q), z=z, r=r, s=s))
+        errpath(ctx)
+        for ci, (r, s) in enumerate(_rs_grid(c, rng, full, d, z % n)):
+            exp = judge_verify(ctx, base_case(ctx, "verify", Q=list(Q), z=z, r=r, s=s, mutable=bool((ci + j) % 19 == 0)))
             if exp:
                 rec.ev("verify.valid_in_table")
         if j % 7 == 0:
@@ -903,10 +1289,263 @@ def run_toy(spec, rec):
     if len(cells) > cap:
         cells = rng.sample(cells, cap)
     for i, (z, r, s) in enumerate(cells):
-        judge_recover(ctx, base_case(ctx, "recover", z=z, r=r, s=s, y_parity=[None, 0, 1][i % 3]))
+        if i % 40 == 0:
+            errpath(ctx)
+        judge_recover(ctx, base_case(ctx, "recover", z=z, r=r, s=s, y_parity=[None, 0, 1][i % 3], recall=bool(i % 17 == 0)))
     if part == 0:
         rec.sample({"toy_curve": c.name, "G": list(c.G), "exhaustive_rs_grid": bool(full), "d_values": len(ds),
                     "z_values_signed": len(z_sign), "verify_pairs": len(pairs)})
+
+
+# ---------------------------------------------------------------------------------------------
+# class B: the N-th operation on ONE generator object (and on the process-wide nonce function) in ONE process
+
+def run_longrun(spec, rec, upto=None):
+    """more than 2^16 + 100 (thorough: 2^17 + 100) consecutive multiplications by ONE module-level generator object in ONE
+    process, every single result judged: public-key derivations d*G (as `d * g`, `g * d` and Key(secret_exponent=d)) against a
+    running sum built with the reference's affine addition (keys walk d -> d + stride, strides 1, 2^64, 2^128, 2^255, n - 1),
+    the nonce function against the reference for every (d, z) on the way, and every `every`-th step one fully judged signing /
+    verification / recovery / Key event (each of them counts its own generator multiplications on the same object) preceded by
+    a refused call. A fault tied to a per-object or per-process counter (re-blinding interval, cache limit, counter wrap) lands
+    on one of these calls, whichever kind it happens to be."""
+    ctx = get_ctx(spec["curve"], "module", rec)
+    c, n, g = ctx.c, ctx.c.n, ctx.g
+    rng = shard_rng(spec["seed"], PROPERTY, spec["tier"], spec["shard"])
+    need = LONGRUN_MIN["thorough" if spec["tier"] == "thorough" else "quick"]
+    rec.require("longrun.generator_multiplications_on_one_object>%d" % need, "longrun.nonce_function_calls_in_one_process>%d" % need,
+                "config_active:%s/openssl" % spec["curve"], "longrun.derived_public_key", "Generator.sign", "Generator.verify",
+                "Generator.possible_public_pairs_for_signature", "Key.sign", "Key.verify")
+    rec.ev("config_active:%s/%s" % (spec["curve"], "openssl" if ctx.native_mul else "pure"))
+    rec.ev("config:" + spec.get("label", "longrun"))
+    count = spec["count"]
+    if not ctx.native_mul:
+        # 25 ms per multiplication: the long run is not affordable on the pure arithmetic; the run says so (INCONCLUSIVE)
+        rec.note("long run needs the OpenSSL-backed generator; it is not active: long run not performed")
+        count = 300
+    strides = [1, 1 << 64, 1 << 128, 1 << 255, n - 1]
+    spts = [c.mul(k, c.G) for k in strides]
+    d = rng.randrange(1, n)
+    acc = c.mul(d, c.G) + (1,)            # running sum in Jacobian coordinates (X, Y, Z): x = X/Z^2, y = Y/Z^3 - no inversion per step
+    pp = c.p
+    K = ctx.KeyClass
+    fn = ctx.tap.fn
+    mults = nonces = 0
+    every = spec["every"]
+    si = 0
+    for i in range(count):
+        if upto is not None and i > upto:
+            break
+        if i % 1500 == 0:
+            si = rng.randrange(len(strides))
+        if mults > need + 40 and nonces > need + 40:
+            break
+        d = (d + strides[si]) % n
+        acc = c._jadd_affine(*acc, *spts[si])
+        if d == 0 or acc[2] == 0:
+            d, acc = 1, c.G + (1,)
+        form = i % 8
+        if form == 7:
+            st, key = observe(K, secret_exponent=d)
+            st, P = (st, key) if st != "ok" else observe(key.public_pair)
+        elif form & 1:
+            st, P = observe(lambda: g * d)
+        else:
+            st, P = observe(lambda: d * g)
+        mults += 1
+        rec.ev("longrun.derived_public_key")
+        if i % 64 == 0:
+            rec.case(("longrun", spec["curve"], d))
+        X, Y, Z = acc
+        Z2 = Z * Z % pp
+        if st != "ok" or P[0] is None or (P[0] * Z2 - X) % pp or (P[1] * Z2 * Z - Y) % pp:
+            want = c.mul(d, c.G)
+            zi = pow(Z, -1, pp)
+            if want != (X * zi * zi % pp, Y * zi * zi * zi % pp):
+                rec.ev("inconclusive:long-run running sum disagrees with the reference multiplication")
+                break
+            rec.violation("derive.public_key_is_not_dG" if form != 7 else "key.public_pair_mismatch",
+                          {"kind": "longrun", "curve": spec["curve"], "gen": "module", "index": i, "d": d, "form": form,
+                           "spec": {k: spec[k] for k in ("curve", "count", "every", "seed", "tier", "shard")}},
+                          P, want)
+        if fn is not None:
+            z = rng.getrandbits(256) or 1
+            if i % 16 == 0:
+                z = (z % (1 << 255 - i % 256)) or 1            # short hashes too
+            for zq in ((z, M256 - z) if i % 64 == 0 else (z,)):
+                stn, kd = observe(fn, n, d, zq)
+                nonces += 1
+                if stn != "ok" or kd != RN.nonce(n, d, zq.to_bytes(32, "big")):
+                    rec.violation("nonce.differs_from_rfc6979" if stn == "ok" else "nonce.function_raises",
+                                  {"kind": "longrun", "curve": spec["curve"], "gen": "module", "index": i, "d": d, "z": zq, "api": "direct",
+                                   "spec": {k: spec[k] for k in ("curve", "count", "every", "seed", "tier", "shard")}},
+                                  kd, RN.nonce(n, d, zq.to_bytes(32, "big")))
+        if i % every == every - 1:
+            j = i // every
+            zz = rng.getrandbits(256) or 1
+            dd = d if j % 2 else rng.randrange(1, n)
+            sg = ref_sign(ctx, dd, zz)
+            Q = c.mul(dd, c.G)
+            errpath(ctx, dd, zz, sg["r"], sg["s"])
+            kind = j % 6
+            if kind == 0:
+                judge_sign(ctx, base_case(ctx, "sign", d=dd, z=zz))
+                mults += 2
+            elif kind == 1:
+                judge_verify(ctx, base_case(ctx, "verify", Q=list(Q), z=zz, r=sg["r"], s=sg["s"], label="valid", as_point=bool(j % 4 == 1)))
+                mults += 1
+            elif kind == 2:
+                judge_recover(ctx, base_case(ctx, "recover", z=zz, r=sg["r"], s=sg["s"], y_parity=[None, sg["R"][1] & 1][j % 12 == 2],
+                                             from_recid=[None, "same"][j % 12 == 2], signer=list(Q), R=list(sg["R"]), label="signer",
+                                             recall=bool(j % 24 == 8)))
+                mults += 1
+            elif kind == 3:
+                judge_key(ctx, base_case(ctx, "key", d=dd, z=zz, mutable=bool(j % 12 == 3)))
+                mults += 4
+            elif kind == 4:
+                judge_verify(ctx, base_case(ctx, "verify", Q=list(Q), z=zz ^ (1 << (j % 256)) or 2, r=sg["r"], s=sg["s"], label="other_hash",
+                                            as_point=False))
+                mults += 1
+            else:
+                judge_key_verify(ctx, base_case(ctx, "key_verify", Q=list(Q), z=zz, r=sg["r"], s=sg["s"], label="valid"))
+                mults += 1
+        if mults > need and mults - need <= 4:
+            rec.ev("longrun.generator_multiplications_on_one_object>%d" % need)
+        if need < nonces <= need + 2:
+            rec.ev("longrun.nonce_function_calls_in_one_process>%d" % need)
+    rec.ev("longrun.generator_multiplications", mults)
+    rec.sample({"longrun": spec["curve"], "generator_multiplications_on_one_object": mults, "nonce_function_calls": nonces,
+                "all_judged": True})
+
+
+# ---------------------------------------------------------------------------------------------
+# class D: live generators of DIFFERENT curves that are EQUAL BY VALUE (same base-point coordinates), interleaved
+
+def _curve_order(p, a, b):
+    sq = [0] * p
+    for y in range(p):
+        sq[y * y % p] += 1
+    return 1 + sum(sq[(x * x * x + a * x + b) % p] for x in range(p))
+
+
+def twin_family(G, max_p=72, a0_up_to=212):
+    """every curve y^2 = x^3 + a x + b over a prime p = 3 mod 4 that passes through the point G and whose group has prime order
+    n >= 5 (so G generates it): all (a, b) for p < max_p, and the a = 0 members up to a0_up_to (they contain the classic pairs
+    and cycles of the y^2 = x^3 + 3 family, e.g. p = 199, n = 211 and p = 211, n = 199 through G = (1, 2)).
+    A pycoin Generator is a tuple subclass holding just the base-point coordinates, so live Generator objects of all these
+    curves hash and compare EQUAL although they are different groups over different fields."""
+    gx, gy = G
+    out = []
+    for p in range(7, a0_up_to):
+        if not ec.is_prime(p) or p % 4 != 3 or gx >= p or gy >= p or gy % p == 0:
+            continue
+        for a in (range(p) if p < max_p else (0,)):
+            b = (gy * gy - gx ** 3 - a * gx) % p
+            if (4 * a ** 3 + 27 * b * b) % p == 0:
+                continue
+            n = _curve_order(p, a, b)
+            if n >= 5 and ec.is_prime(n):
+                out.append((p, a, b, n))
+    return out
+
+
+def pick_twins(fam, k, rng):
+    """k members of a family with the relations that matter between two of them: same field and different (a, b); same order
+    over different fields; a 2-cycle (p1, n1) = (n2, p2); unrelated."""
+    fam = list(fam)
+    rng.shuffle(fam)
+    same_p = [(x, y) for x in fam for y in fam if x < y and x[0] == y[0]]
+    same_n = [(x, y) for x in fam for y in fam if x < y and x[3] == y[3] and x[0] != y[0]]
+    cycle = [(x, y) for x in fam for y in fam if x < y and x[0] == y[3] and x[3] == y[0]]
+    chosen = []
+    for pool in (cycle, same_p, same_n):
+        if pool:
+            for t in pool[rng.randrange(len(pool))]:
+                if t not in chosen:
+                    chosen.append(t)
+    for t in fam:
+        if len(chosen) >= k:
+            break
+        if t not in chosen:
+            chosen.append(t)
+    return chosen[:max(k, 2)]
+
+
+REQUIRED_TWINS = ("twins.generators_equal_by_value_on_different_curves", "twins.same_question_to_next_generator",
+                  "recover.signer_demanded", "recover.returned_key", "verify.key_is_foreign_generators_point",
+                  "verify.valid", "verify.other_key", "verify.other_hash", "Key.verify.valid")
+
+
+def run_twins(spec, rec):
+    rng = shard_rng(spec["seed"], PROPERTY, spec["tier"], spec["shard"])
+    G = tuple(spec["G"])
+    fam = twin_family(G)
+    chosen = pick_twins(fam, spec["curves"], rng)
+    rec.require(*REQUIRED_OPS)
+    rec.require(*REQUIRED_TWINS)
+    rec.require(*REQUIRED_ERRPATH)
+    rec.ev("config:toy/inproc-pure")
+    cids = [[p, a, b, G[0], G[1], n] for (p, a, b, n) in chosen]
+    _STATE["twins"] = cids
+    ctxs = [get_ctx(cid, "inproc", rec) for cid in cids]
+    for x in ctxs:
+        if not x.c.on_curve(G) or x.c.mul(x.c.n, G) is not None or _curve_order(x.c.p, x.c.a, x.c.b) != x.c.n:
+            rec.ev("inconclusive:twin family member is not a prime-order curve through the base point")
+            rec.note("twin_family produced %r for G=%r" % (x.curve_id, G))
+            return
+    for x in ctxs[1:]:
+        if tuple(x.g) == tuple(ctxs[0].g) and (x.c.p, x.c.a, x.c.b) != (ctxs[0].c.p, ctxs[0].c.a, ctxs[0].c.b):
+            rec.ev("twins.generators_equal_by_value_on_different_curves")
+    M = (1 << 256) - 1
+    for j in range(spec["rounds"]):
+        order = list(ctxs)
+        rng.shuffle(order)
+        u = j % 4
+        z = rng.randrange(1, 1 << 256) if u == 0 else rng.randrange(1, 600) if u == 1 else \
+            (rng.randrange(1, 1 << 9) << 247) | rng.getrandbits(247) if u == 2 else rng.choice((M, 1 << 255, M - 1, 1, 2, 3))
+        dsel = rng.randrange(0, 1 << 16)
+        # --- the same key index / hash on every generator, one after the other
+        _STATE["after_curves"] = []
+        if j % 3 == 0:
+            errpath(order[-1])                  # a refused call on one object, the judged ones start on another
+        for x in order:
+            c, n = x.c, x.c.n
+            d = 1 if j % 6 == 0 else n - 1 if j % 6 == 3 else dsel % (n - 1) + 1
+            Q = c.mul(d, c.G)
+            if _STATE["after_curves"]:
+                rec.ev("twins.same_question_to_next_generator")
+            res = judge_sign(x, base_case(x, "sign", d=d, z=z))
+            sg = ref_sign(x, d, z)
+            if sg["first_ok"]:
+                r, s = sg["r"], sg["s"]
+                variants = recover_variants(c, r, s, res[2] if res else sg["R"][1] & 1, sg["R"])
+                label, sv, yp, fr, Rv = variants[j % len(variants)]
+                judge_recover(x, base_case(x, "recover", z=z, r=r, s=sv, y_parity=yp, from_recid=fr, signer=list(Q), R=list(Rv),
+                                           label=label, recall=bool(j % 8 == 1), chain=bool(j % 8 == 5)))
+                d2 = d % (n - 1) + 1
+                z2 = z + 1 if z < M else z - 1
+                fs = forgeries(c, rng, d, z, r, s, c.mul(d2, c.G), z2 if z2 % n != z % n else z2 + 1, "full")
+                for jj, (lab, Qf, zf, rf, sf) in enumerate(fs[:3] + [fs[3 + j % (len(fs) - 3)]]):
+                    # the key handed over as an object made by one of the OTHER generators whenever that curve contains it too
+                    judge_verify(x, base_case(x, "verify", Q=list(Qf), z=zf, r=rf, s=sf, label=lab,
+                                              as_point="foreign" if (jj + j) % 2 == 0 else bool(jj % 2), mutable=bool((jj + j) % 7 == 3)))
+                if j % 4 == 2:
+                    judge_key(x, base_case(x, "key", d=d, z=z, mutable=bool(j % 8 == 2)))
+                    judge_key_verify(x, base_case(x, "key_verify", Q=list(Q), z=z, r=r, s=s, label="valid"))
+            _STATE["after_curves"].append(x.curve_id)
+        # --- the same NUMBERS (z, r, s) as a recovery / verification question on every generator: same x = r everywhere
+        _STATE["after_curves"] = []
+        nmin = min(x.c.n for x in ctxs)
+        r = rng.randrange(1, nmin) if j % 3 else rng.randrange(1, max(x.c.n for x in ctxs))
+        s = rng.randrange(1, nmin)
+        for x in order:
+            if _STATE["after_curves"]:
+                rec.ev("twins.same_question_to_next_generator")
+            judge_recover(x, base_case(x, "recover", z=z, r=r, s=s, y_parity=[None, 0, 1][j % 3], chain=bool(j % 5 == 0)))
+            judge_verify(x, base_case(x, "verify", Q=list(G), z=z, r=r, s=s, as_point="foreign" if j % 2 else False))
+            _STATE["after_curves"].append(x.curve_id)
+        _STATE["after_curves"] = []
+    _STATE["after_curves"] = None
+    rec.sample({"twin_generators": [x.c.name for x in ctxs], "G": list(G), "rounds": spec["rounds"], "family_size": len(fam)})
 
 
 def run_shard(spec, rec):
@@ -916,7 +1555,7 @@ def run_shard(spec, rec):
         if kind == "memcheck":
             memcheck.run(spec, rec, PROPERTY)
         else:
-            {"big": run_big, "toy": run_toy}[kind](spec, rec)
+            {"big": run_big, "toy": run_toy, "longrun": run_longrun, "twins": run_twins}[kind](spec, rec)
     except GeneratorUnavailable:
         rec.case(("generator_unavailable", spec.get("curve"), spec.get("gen")))
     finally:
@@ -938,6 +1577,43 @@ def replay_case(case, rec):
     if kind == "import":
         return
     case = dict(case, curve=curve)
+    if kind == "longrun":
+        # state-dependent by nature: repeat the long run up to (and including) the step that failed
+        sp = dict(case["spec"], property=PROPERTY)
+        sp = {k: (int(v) if k in ("count", "every", "seed", "shard") else v) for k, v in sp.items()}
+        run_longrun(sp, rec, upto=int(case["index"]))
+        return
+    pre = case.get("after_curves")
+    if pre and kind in JUDGES:
+        # the same question to the other live generators (equal by value, different curves) first, in the recorded order
+        cids = [[int(v) for v in cid] for cid in pre]
+        _STATE["twins"] = cids + [curve]
+        for cid in cids:
+            try:
+                o = get_ctx(cid, "inproc", rec)
+            except GeneratorUnavailable:
+                continue
+            sub = dict(case, curve=cid, after_curves=None, after_refused=None)
+            if kind in ("sign", "key"):
+                sub["d"] = (int(case["d"]) - 1) % (o.c.n - 1) + 1
+            if kind in ("verify", "key_verify") and not o.c.on_curve(tuple(case["Q"])):
+                sub["Q"] = list(o.c.G)
+            sub.pop("signer", None)
+            sub.pop("R", None)
+            JUDGES[kind](o, sub)
+            if kind == "sign":
+                # signing is followed by recovery of the produced signature in the workload
+                sgo = RE.rfc6979_sign(o.c, sub["d"], int(case["z"]))
+                if sgo["first_ok"]:
+                    JUDGES["recover"](o, {"kind": "recover", "curve": cid, "gen": "inproc", "z": int(case["z"]), "r": sgo["r"], "s": sgo["s"]})
+    ar = case.get("after_refused")
+    if ar:
+        try:
+            name, rcurve, rgen = ar
+            rcurve = [int(v) for v in rcurve] if isinstance(rcurve, list) else rcurve
+            errpath(get_ctx(rcurve, rgen, rec), name=name, follow=False)
+        except GeneratorUnavailable:
+            pass
     other = case.get("other")
     if kind == "sign" and isinstance(other, dict) and "d" in other:
         # nonce-table violations need the earlier event too: replay it first (z mod n names the same message)
